@@ -13,7 +13,7 @@
 #define NT 8
 #endif
 typedef struct UPAIR_T upair; typedef struct SPAIR_T spair;
-uint32_t cx_key[NT], cx_probe; int32_t cx_n, cx_kind, cx_idx; int64_t cx_got; uint8_t cx_str[NT][3], cx_pstr[3];
+uint32_t cx_key[NT], cx_probe; int32_t cx_n, cx_kind, cx_idx; int64_t cx_got; uint8_t cx_strs[NT * 3], cx_pstr[3];   /* flat: CBMC 6.11 mis-evaluates reads through row pointers of a 2-D byte array */
 static int scmp(const uint8_t *a, const uint8_t *b) { int i = 0; while (a[i] && a[i] == b[i]) i++; return (int)a[i] - (int)b[i]; }
 #if KIND == 2
 static int im_ctor_calls; static uint32_t im_ctor_key;
@@ -51,12 +51,12 @@ int main(void)
 #else
   static spair arr[NT]; spair *tab = arr + (NT - n);
   for (int i = 0; i < NT; i++) {
-    cx_str[i][0] = nondet_u8(); cx_str[i][1] = nondet_u8(); cx_str[i][2] = 0;
-    if (i > 0 && i < n) VF_ASSUME(scmp(cx_str[i - 1], cx_str[i]) < 0);
+    cx_strs[3 * i + 0] = nondet_u8(); cx_strs[3 * i + 1] = nondet_u8(); cx_strs[3 * i + 2] = 0;
+    if (i > 0 && i < n) VF_ASSUME(scmp((&cx_strs[3 * (i - 1)]), (&cx_strs[3 * i])) < 0);
   }
-  for (int i = 0; i < NT; i++) if (i < n) { tab[i].f0 = cx_str[i]; tab[i].f1.f0 = nondet_u32(); }
+  for (int i = 0; i < NT; i++) if (i < n) { tab[i].f0 = (&cx_strs[3 * i]); tab[i].f1.f0 = nondet_u32(); }
   cx_pstr[0] = nondet_u8(); cx_pstr[1] = nondet_u8(); cx_pstr[2] = 0;
-  int pos = -1; for (int i = 0; i < NT; i++) if (i < n && scmp(cx_str[i], cx_pstr) == 0) pos = i;
+  int pos = -1; for (int i = 0; i < NT; i++) if (i < n && scmp((&cx_strs[3 * i]), cx_pstr) == 0) pos = i;
   int64_t gp = (int64_t)vf_gt_pair_s(tab, (uint64_t)n, cx_pstr), gv = (int64_t)vf_gt_ptr_s(tab, (uint64_t)n, cx_pstr);
   cx_got = gp;
   VF_ASSERT(gp == pos, "C12: message-table lookup hits exactly the present strings and returns that string's pair");
